@@ -174,13 +174,20 @@ def getBlockByHeight (l : Ledger) (h : Nat) : Option Block :=
 
 /-! ## histories -/
 
+/-- `AddHeader` during header sync, as far as the height index is concerned: the header of the NEXT height (hash `x`) is
+indexed with `setHeaderIndex(currBlockHeight, currBlockHeight+1, x)` — the eviction runs with the post-commit height -/
+def syncHeader (x : Hash) (l : Ledger) : Ledger :=
+  { l with cache := setHeaderIndex l.curHeight (l.curHeight + 1) x l.cache }
+
 inductive Op
   | commit (b : Block)
   | restart
+  | syncHeader (x : Hash)      -- only when no header is ahead of the blocks (`header.Height == currentHeaderHeight+1`)
 
 def step (P : Prims) (l : Ledger) : Op → Option Ledger
   | .commit b => some (commit P b l)
   | .restart => restart l
+  | .syncHeader x => if l.cache.last = l.curHeight then some (syncHeader x l) else none
 
 def runOps (P : Prims) : List Op → Ledger → Option Ledger
   | [], l => some l
@@ -193,5 +200,6 @@ def committed : List Op → List Block
   | [] => []
   | .commit b :: r => b :: committed r
   | .restart :: r => committed r
+  | .syncHeader _ :: r => committed r
 
 end OntVerif.Model.BlockStore
